@@ -89,6 +89,22 @@ def Built.slot (b : Built) (e : Entry) : Option Nat :=
 
 def Signer.entry (s : Signer) : Entry := ⟨s.stake, s.vk⟩
 
+/-- the JSON text of the concatenation aggregate key (`serde_json::to_string`), as the client puts it — hex encoded —
+into the `NextAggregateVerificationKey` part of the message it recomputes -/
+def keyJson (k : Bytes × Nat × Nat) : String :=
+  "{\"mt_commitment\":{\"root\":[" ++ String.intercalate "," (k.1.map fun b => toString b.toNat) ++
+  "],\"nr_leaves\":" ++ toString k.2.1 ++ ",\"hasher\":null},\"total_stake\":" ++ toString k.2.2 ++ "}"
+
+/-- the signer's path (mithril-signer `MithrilEpochService::associate_signers_with_stake` + `MithrilSingleSigner`):
+the stakes come from the signer's own stake store, by party id, in list order; a listed party without a stake is an
+error before anything is built -/
+def associate (stakes : List (Nat × Nat)) : List (Nat × Nat × Nat) → Option (List Signer)
+  | [] => some []
+  | (party, pool, vk) :: r =>
+    match (stakes.find? (·.1 == party)).map (·.2), associate stakes r with
+    | some st, some rest => some (⟨party, pool, vk, st⟩ :: rest)
+    | _, _ => none
+
 /-- the honest input space: every entry registers under its own listed identity, no party listed twice -/
 def WF (l : List Signer) : Prop := (∀ s ∈ l, s.pool = s.party) ∧ (l.map (·.party)).Nodup
 
